@@ -11,7 +11,8 @@ for d in sorted(glob.glob(os.path.join(VERIF, 'seeded', '*'))):
     m = re.search(r'(?is)(needed to manifest|what is needed|to manifest|what it needs|needs to manifest|what it takes)[^\n]*\n?(.*?)(\n\s*\n|\n- \*\*Why|\n\* Why|\Z)', notes)
     if m:
         needs = (m.group(0)).strip()[:900]
-    meta['needs'] = needs or 'see notes.md'
+    if meta.get('needs') in (None, '', 'see notes.md'):
+        meta['needs'] = needs or 'see notes.md'
     meta['ran'] = [
         'patch -p1 < patch.diff on a scratch copy of /repo (src + tests) outside /repo and /verif',
         'PYTHONPATH=<copy>/src /venv/bin/python -m pytest -q tests   -> must stay 689 passed',
